@@ -18,9 +18,11 @@ TECHNIQUE = 'property-based testing (Hypothesis): model-based command histories 
 RULE = (
     'Hypothesis generates command histories (<=30 quick / <=45 thorough commands) over 2 maps (fresh VMF() or '
     'VMF.parse of a small generated tree) and a pool of entities (in a map, never added, or removed): '
-    'create_ent, Entity()+add_ent/add_ents, remove_ent/Entity.remove, ent[k]=v, del, pop, update, clear, make_unique, '
+    'create_ent, Entity()+add_ent/add_ents, collapse_one of a small template, remove_ent/Entity.remove, ent[k]=v, del, pop, update, clear, make_unique, '
     'copy (same/other map), iteration over by_class/by_target/search while mutating, and the same key operations on '
-    'worldspawn; keys/values in random letter case from small tables.  After every command the indexes are compared '
+    'worldspawn; keys/values in random letter case from small tables; entities may carry nodeid (numeric / empty / non-numeric), hammerid '
+    'and id keyvalues; maps may be made with preserve_ids=True and then hold several entities with one id (copy(des_id=), '
+    'Entity(ent_id=), documents with repeated ids).  After every command the indexes are compared '
     'with a scan of [spawn]+entities.  Non-trivial = the history renames/re-classes/removes an in-map entity whose '
     'old name or class was mixed-case, or deletes/pops/clears an indexed key of an in-map entity, or mutates during '
     'an index iteration that yields >= 2 entities, or manipulates the classname/targetname of worldspawn, or runs commands on a '
@@ -61,7 +63,12 @@ CLASSES = ['info_target', 'Info_Target', 'INFO_TARGET', 'func_brush', 'Func_Brus
 CKEYS = ['classname', 'ClassName', 'CLASSNAME']
 TKEYS = ['targetname', 'TargetName', 'TARGETNAME']
 OKEYS = ['origin', 'Origin']
-KEYS = CKEYS + TKEYS + TKEYS + CKEYS + OKEYS                      # weighted towards the indexed keys
+# keyvalues that other bookkeeping of the map looks at (node ids, id-like keys), with values it can and cannot digest
+ODD_KEYS = ['nodeid', 'NodeID', 'hammerid']
+ODD_KVS = [None, None, None, ('nodeid', '3'), ('nodeid', ''), ('nodeid', 'auto'), ('NodeID', '2.5'), ('hammerid', '7'),
+           ('id', '5'), ('nodeid', '0'), ('ID', 'x'), ('nodeid', '3')]
+NODE_VALS = ['1', '', 'auto', '2.5', '7', '1']
+KEYS = CKEYS + TKEYS + TKEYS + CKEYS + OKEYS + ODD_KEYS           # weighted towards the indexed keys
 SEARCH_PROBES = sorted({n.casefold() for n in NAMES if n} | {c.casefold() for c in CLASSES if c})
 PREFIX_PROBES = ['*', 'f*', 'fo*', 'foo*', 'FOO*', 'b*', 'Ba*', 'info*', 'foo1*',
                  'stras*', 'Stra\u00df*', '\ufb01*', 'FIN*', '\u00b5*', '\u039f\u0394\u039f\u03a3*']
@@ -86,20 +93,23 @@ FAMILIES: dict[str, list[str]] = {
     # del / pop / clear
     'delete': ['create', 'create', 'create', 'new', 'add', 'remove', 'del', 'del', 'del2', 'pop', 'pop', 'clear'],
     # add/remove/copy/make_unique
-    'lifecycle': ['create', 'create', 'new', 'new', 'add', 'add', 'add_many', 'remove', 'remove', 'copy', 'copy',
-                  'unique', 'unique'],
+    'lifecycle': ['create', 'create', 'new', 'new', 'new', 'add', 'add', 'add_many', 'add_many', 'remove', 'remove', 'copy',
+                  'copy', 'unique', 'unique', 'collapse'],
     # worldspawn rules
     'spawn': ['create', 'sp_set', 'sp_set', 'sp_set', 'sp_del', 'sp_pop', 'sp_clear', 'sp_update', 'remove', 'copy'],
     # iteration while mutating (mutations are lower-case-safe creates + whatever the loop body does)
     'iterate': ['create', 'create', 'create', 'new', 'add', 'iter', 'iter', 'iter', 'remove'],
     # maps that start life in VMF.parse()
     'parse': ['create', 'new', 'add', 'remove', 'remove', 'set', 'copy', 'unique', 'sp_set', 'iter'],
+    # maps made with preserve_ids=True, where several entities (in or outside the map) may carry the same id
+    'preserve': ['create', 'new', 'new', 'add', 'add_many', 'remove', 'remove', 'set', 'set', 'update', 'del', 'pop', 'clear',
+                 'unique', 'copy', 'copy', 'copy', 'collapse'],
     'mixed': ['create', 'create', 'new', 'add', 'add_many', 'remove', 'set', 'set', 'update', 'del', 'del2', 'pop',
-              'clear', 'unique', 'copy', 'iter', 'sp_set', 'sp_del', 'sp_pop', 'sp_update'],
+              'clear', 'unique', 'copy', 'iter', 'sp_set', 'sp_del', 'sp_pop', 'sp_update', 'collapse'],
 }
 # in the families that are meant to isolate one mechanism, other mechanisms only see lower-case values
 LOWER_ONLY = {'iterate', 'parse'}
-PARSED_ORIGIN = {'parse', 'mixed'}
+PARSED_ORIGIN = {'parse', 'mixed', 'preserve'}
 
 
 def strategy_for(fam: str):
@@ -117,11 +127,19 @@ def strategy_for(fam: str):
                 'wcls': st.integers(0, 3),        # 0 absent, 1 worldspawn, 2 WorldSpawn, 3 other (func_brush)
                 'wname': st.integers(0, len(NAMES) - 1),
                 'ents': st.lists(st.tuples(st.integers(0, 63), st.integers(0, 63), st.booleans()).map(list), max_size=4),
+                'dup': st.booleans(),             # entity ids in the document repeat pairwise
             }),
         )
+        if fam == 'preserve':
+            pres = st.just([True, True])
+        elif fam in ('mixed', 'parse'):
+            pres = st.tuples(st.booleans(), st.booleans()).map(list)
+        else:
+            pres = st.just([False, False])
         return st.fixed_dictionaries({
             'fam': st.just(fam),
             'maps': st.tuples(origin, origin).map(list),
+            'pres': pres,                         # preserve_ids of the two maps
             # (shrinks towards the short branch; the long one gives histories real depth)
             'cmds': st.one_of(st.lists(cmd, max_size=8), st.lists(cmd, min_size=9, max_size=max_cmds),
                               st.lists(cmd, min_size=16, max_size=max_cmds)),
@@ -145,6 +163,7 @@ class World:
         self.flags: set[str] = set()
         self.nontrivial = False
         self.last_op = ''
+        self.n_inst = 0
 
     # -- value decoding
     def name(self, n: int) -> str:
@@ -169,7 +188,26 @@ class World:
             return self.cls(n)
         if kf == 'targetname':
             return self.name(n)
+        if kf == 'nodeid':
+            return NODE_VALS[n % len(NODE_VALS)]
+        if kf == 'hammerid':
+            return str(n)
         return f'{n % 3} 0 0'
+
+    def odd(self, n: int):
+        kv = ODD_KVS[n % len(ODD_KVS)]
+        if kv is not None:
+            self.flag('odd_keyvalue')
+            if kv[0].casefold() == 'nodeid':
+                try:
+                    int(kv[1])
+                    self.flag('odd:nodeid_numeric')
+                except ValueError:
+                    self.flag('odd:nodeid_non_numeric')
+        return kv
+
+    def same_id_elsewhere(self, ent, mi: int) -> bool:
+        return any(e is not ent and m == mi and e.id == ent.id for e, m in self.pool)
 
     def find(self, ent) -> int:
         for i, (e, _) in enumerate(self.pool):
@@ -213,7 +251,10 @@ def build_tree(origin, w: World):
     specs = []
     for n, (ci, ni, hidden) in enumerate(origin['ents']):
         cls, name = CLASSES[ci % len(CLASSES)], NAMES[ni % len(NAMES)]
-        kvs = [Keyvalues('id', str(n + 2))]
+        kvs = [Keyvalues('id', str(2 + n // 2 if origin.get('dup') else n + 2))]
+        odd = w.odd(ci + ni)
+        if odd is not None and odd[0].casefold() != 'id':
+            kvs.append(Keyvalues(odd[0], odd[1]))
         if cls or ci % 2:
             kvs.append(Keyvalues(CKEYS[ci % 3], cls))
         if name or ni % 2:
@@ -226,12 +267,15 @@ def build_tree(origin, w: World):
 
 def make_map(origin, mi: int, w: World):
     from srctools.vmf import VMF
+    pres = bool(w.desc.get('pres', [False, False])[mi])
+    if pres:
+        w.flag('preserve_map')
     if origin is None:
-        w.log(f'm{mi} = VMF()')
-        return VMF()
+        w.log(f'm{mi} = VMF(preserve_ids={pres})')
+        return VMF(preserve_ids=pres)
     tree, specs = build_tree(origin, w)
-    vmf = VMF.parse(tree)
-    w.log(f'm{mi} = VMF.parse(<world classname {["absent", "worldspawn", "WorldSpawn", "func_brush"][origin["wcls"]]}, '
+    vmf = VMF.parse(tree, preserve_ids=pres)
+    w.log(f'm{mi} = VMF.parse(preserve_ids={pres}, ids {[e.id for e in vmf.entities]}, <world classname {["absent", "worldspawn", "WorldSpawn", "func_brush"][origin["wcls"]]}, '
           f'targetname {vmf.spawn["targetname"]!r}; entities (class, name, hidden) = {specs}>)')
     w.flag('parsed_map')
     if specs:
@@ -240,6 +284,8 @@ def make_map(origin, mi: int, w: World):
     for ent in vmf.entities:
         w.pool.append([ent, mi])
         w.inmap.append(True)
+    if len({e.id for e in vmf.entities}) != len(vmf.entities):
+        w.flag('twin_id')
     return vmf
 
 
@@ -361,6 +407,9 @@ def op_create(w: World, a, b, c, d, e):
         kwargs[TKEYS[d % 3]] = w.name(c // 4 + e)
     if e % 5 == 0:
         kwargs['origin'] = '1 2 3'
+    odd = w.odd(b + e)
+    if odd is not None:
+        kwargs[odd[0]] = odd[1]
     ent = w.maps[mi].create_ent(cls, **kwargs)
     w.pool.append([ent, mi])
     w.inmap.append(True)
@@ -375,12 +424,21 @@ def op_new(w: World, a, b, c, d, e):
         keys[CKEYS[b % 4]] = w.cls(b // 4 + c)
     if d % 3:
         keys[TKEYS[d % 3]] = w.name(e)
-    ent = Entity(w.maps[mi], keys=keys)
+    odd = w.odd(c + d)
+    if odd is not None:
+        keys[odd[0]] = odd[1]
+    # every third new entity asks for the id of an entity the harness already holds for that map
+    mine = [x for x, m in w.pool if m == mi]
+    want = mine[(e // 3) % len(mine)].id if mine and e % 3 == 0 else -1
+    ent = Entity(w.maps[mi], keys=keys, ent_id=want)
     w.pool.append([ent, mi])
     w.inmap.append(False)
     if 'classname' not in {k.casefold() for k in keys}:
         w.flag('no_classname_entity')
-    w.log(f'e{len(w.pool) - 1} = Entity(m{mi}, keys={keys!r})')
+    if w.same_id_elsewhere(ent, mi):
+        w.flag('twin_id')
+        w.nontrivial = True
+    w.log(f'e{len(w.pool) - 1} = Entity(m{mi}, keys={keys!r}, ent_id={want})  -> id {ent.id}')
 
 
 def op_add(w: World, a, b, c, d, e):
@@ -411,6 +469,8 @@ def op_add_many(w: World, a, b, c, d, e):
         w.inmap[i] = True
     if len(picks) > 1:
         w.flag('add_ents_many')
+    if any('nodeid' in w.pool[i][0] for i in picks):
+        w.flag('add_ents_with_nodeid')
     w.log(f'm{mi}.add_ents(<generator of {["e%d" % i for i in picks]}>)')
 
 
@@ -560,18 +620,23 @@ def op_copy(w: World, a, b, c, d, e):
     i = a % len(w.pool)
     ent, mi = w.pool[i]
     how = b % 3
+    kw = {'des_id': ent.id} if (c // 4) % 2 else {}
+    ktxt = f'des_id={ent.id}, ' if kw else ''
     if how == 0:
-        new, ni, txt = ent.copy(), mi, ''
+        new, ni, txt = ent.copy(**kw), mi, ktxt
     elif how == 1:
-        new, ni, txt = ent.copy(vmf_file=w.maps[mi]), mi, f'vmf_file=m{mi}'
+        new, ni, txt = ent.copy(vmf_file=w.maps[mi], **kw), mi, f'{ktxt}vmf_file=m{mi}'
     else:
         ni = 1 - mi
-        new, txt = ent.copy(vmf_file=w.maps[ni]), f'vmf_file=m{ni}'
+        new, txt = ent.copy(vmf_file=w.maps[ni], **kw), f'{ktxt}vmf_file=m{ni}'
         w.flag('cross_map_copy')
     w.pool.append([new, ni])
     w.inmap.append(False)
     j = len(w.pool) - 1
-    w.log(f'e{j} = e{i}.copy({txt})')
+    w.log(f'e{j} = e{i}.copy({txt})  -> id {new.id}')
+    if w.same_id_elsewhere(new, ni):
+        w.flag('twin_id')
+        w.nontrivial = True
     if c % 4:
         w.maps[ni].add_ent(new)
         w.inmap[j] = True
@@ -754,6 +819,37 @@ def op_sp_update(w: World, a, b, c, d, e):
         spawn.update(items)
 
 
+def op_collapse(w: World, a, b, c, d, e):
+    """instancing.collapse_one of a small template: one more public route that puts entities into a map."""
+    from srctools import Matrix, Vec, instancing
+    from srctools.vmf import VMF
+    mi = a % 2
+    vmf = w.maps[mi]
+    tmpl = VMF(preserve_ids=True)
+    made = []
+    for k in range(1 + b % 3):
+        kwargs = {'origin': '0 0 0'}
+        if (c + k) % 3:
+            kwargs[TKEYS[(c + k) % 3]] = w.name(c + d + k)
+        odd = w.odd(d + e + k)
+        if odd is not None:
+            kwargs[odd[0]] = odd[1]
+        cls = w.cls(b + k)
+        tmpl.create_ent(cls, **kwargs)
+        made.append((cls, kwargs))
+    w.n_inst += 1
+    inst = instancing.Instance('i%d' % w.n_inst, 'tmpl.vmf', Vec(16 * w.n_inst, 0, 0), Matrix(),
+                               list(instancing.FixupStyle)[e % 3])
+    instancing.collapse_one(vmf, inst, instancing.InstanceFile(tmpl))
+    new = [x for x in vmf.entities if w.find(x) < 0]
+    for x in new:
+        w.pool.append([x, mi])
+        w.inmap.append(True)
+    w.flag('collapse')
+    w.log(f'collapse_one(m{mi}, Instance({inst.name!r}, {inst.fixup_type.name}), <template with create_ent of {made}>)  -> '
+          f'{["e%d" % w.find(x) for x in new]}')
+
+
 def op_nop(w: World, a, b, c, d, e):
     return
 
@@ -761,12 +857,20 @@ def op_nop(w: World, a, b, c, d, e):
 OPS = {
     'nop': op_nop, 'create': op_create, 'new': op_new, 'add': op_add, 'add_many': op_add_many, 'remove': op_remove,
     'set': op_set, 'update': op_update, 'del': op_del, 'del2': op_del2, 'pop': op_pop, 'clear': op_clear,
-    'unique': op_unique, 'copy': op_copy, 'iter': op_iter,
+    'unique': op_unique, 'copy': op_copy, 'iter': op_iter, 'collapse': op_collapse,
     'sp_set': op_sp_set, 'sp_del': op_sp_del, 'sp_pop': op_sp_pop, 'sp_clear': op_sp_clear, 'sp_update': op_sp_update,
 }
 
 
+_LOGGING_QUIET = False
+
+
 def execute(desc, ctx):
+    global _LOGGING_QUIET
+    if not _LOGGING_QUIET:
+        import logging
+        logging.getLogger('srctools').setLevel(logging.ERROR)   # collapse_one warns about unknown keyvalues / classes
+        _LOGGING_QUIET = True
     w = World(desc, ctx)
     try:
         for mi, origin in enumerate(desc['maps']):
@@ -802,15 +906,18 @@ SUBCHECKS = [
     _sub('delete', 1200, 40000, 100, ('del_indexed', 'pop_indexed', 'clear_inmap', 'del_target_detached', 'clear_detached',
                                       'name:lower_ne_casefold')),
     _sub('lifecycle', 1000, 30000, 100, ('remove_mixed_case', 'cross_map_copy', 'add_ents_many', 'make_unique_inmap',
-                                         'remove_detached', 'no_classname_entity', 'name:lower_ne_casefold')),
+                                         'remove_detached', 'no_classname_entity', 'name:lower_ne_casefold',
+                                         'add_ents_with_nodeid', 'odd:nodeid_non_numeric', 'odd:nodeid_numeric', 'collapse')),
     _sub('spawn', 600, 16000, 50, ('spawn_reclass_attempt', 'spawn_rename', 'spawn_del_class',
                                    'spawn_pop_class', 'spawn_clear')),
     _sub('parse', 600, 16000, 50, ('parsed_map_with_ents', 'remove_inmap', 'op:set', 'op:copy')),
     _sub('iterate', 800, 24000, 50, ('iter_mutated_multi', 'iter_by_class', 'iter_by_target', 'iter_search',
                                      'iter_search_prefix')),
+    _sub('preserve', 800, 24000, 50, ('preserve_map', 'twin_id', 'remove_inmap', 'op:set', 'op:copy', 'parsed_map_with_ents',
+                                      'add_ents_with_nodeid', 'collapse')),
     _sub('mixed', 1200, 50000, 100, ('rename_mixed_case', 'del_indexed', 'pop_indexed', 'clear_inmap', 'iter_mutated',
                                      'cross_map_copy', 'spawn_reclass_attempt', 'parsed_map_with_ents',
-                                     'name:lower_ne_casefold')),
+                                     'name:lower_ne_casefold', 'add_ents_with_nodeid', 'preserve_map', 'collapse')),
 ]
 
 MATCHERS = {}
